@@ -124,6 +124,41 @@ theorem C03_reconstruct_fields (outer inner : Hello) (pt : Bytes) (h : decodeInn
                 exact ⟨h0, hp, rfl, rfl, rfl, rfl, rfl, hx, hd⟩
     · simp at hm
 
+/-- A reconstructed inner hello always has an extensions field (it carries at least the ECH
+    extension of type inner), so the `noExt` form of pre-TLS-1.3 hellos never reaches the backend
+    as an accepted inner hello. -/
+theorem C03_inner_has_extension_field (outer inner : Hello) (pt : Bytes) (h : decodeInner outer pt = .ok inner) :
+    inner.noExt = false := by
+  unfold decodeInner at h
+  split at h
+  · simp at h
+  · split at h
+    · simp at h
+    · rename_i m _ h0 hp
+      split at h
+      · simp at h
+      · rename_i hty
+        split at h
+        · simp at h
+        · split at h
+          · simp at h
+          · split at h
+            · simp at h
+            · simp only [Except.ok.injEq] at h
+              subst h
+              simp only
+              obtain ⟨_, _, _, _, _, _, _, _, _, hpe, _, hno⟩ := parseClientHello_inv _ h0 hp
+              cases hn : h0.noExt with
+              | false => rfl
+              | true =>
+                exfalso
+                have hex := (hno hn).1
+                rw [hex] at hpe
+                simp only [parseExtensions, parseExtensionsFrom, Except.ok.injEq] at hpe
+                have hty' : Option.map (fun x => x.typ) h0.d.ech = some 1 := by simpa using hty
+                rw [← hpe] at hty'
+                simp at hty'
+
 /-- Byte-exactness of the record handed to the backend: the marshalled inner hello is the TLS
     record (type 22, version = legacy_version) carrying one ClientHello message whose body is
     exactly  version ‖ random ‖ <session id> ‖ <suites> ‖ <compression> ‖ <extensions> , each
@@ -133,6 +168,7 @@ theorem C03_marshal_exact (inner : Hello)
     (hx : ∀ e ∈ inner.exts, e.data.length < 65536)
     (hs : inner.sessionId.length < 256) (hc : inner.cipherSuites.length < 65536)
     (hm : inner.compression.length < 256) (he : (encExts inner.exts).length < 65536)
+    (hne : inner.noExt = false)
     (body : Bytes)
     (hb : body = u16 inner.legacyVersion ++ inner.random ++ (u8 inner.sessionId.length ++ inner.sessionId) ++
             (u16 inner.cipherSuites.length ++ inner.cipherSuites) ++
@@ -144,7 +180,7 @@ theorem C03_marshal_exact (inner : Hello)
   have hmb : marshalBody false inner = .ok body := by
     dsimp only [marshalBody]
     rw [putExts_false _ inner.exts hx]
-    simp [lp8, lp16, hs, hc, hm, he, hb]
+    simp [lp8, lp16, hs, hc, hm, he, hb, hne]
   have h24 : lp24 body = some (u24 body.length ++ body) := by
     simp [lp24]; omega
   have h16 : lp16 (u8 1 ++ (u24 body.length ++ body)) = some (u16 (4 + body.length) ++ (u8 1 ++ (u24 body.length ++ body))) := by
